@@ -143,6 +143,7 @@ def run(ctx):
     ctx.cov["ended_with_core_dump_enabled"] = len(core_runs)
     ctx.cov["core_dump_witnessed"] = sum(1 for o in core_runs if any(l["t"] == "corewit" and l["v"] == 1 for l in o["report"]))
     ctx.cov["core_cases_vacuous_no_dump_here"] = vacuous
+    ctx.cov["ignored_on_entry_by_runner"] = dict((ru, sorted(set(l["v"] for o in obs if o["runner"] == ru for l in o["report"] if l["t"] == "ign"))) for ru in RUNNERS)
     canc = [o for o in obs if o.get("cancel", "none") != "none"]
     ctx.cov["cancelled_around_the_end"] = len(canc)
     ctx.cov["cancelled_after_program_was_gone"] = sum(1 for o in canc if o["endedfirst"])
